@@ -1329,8 +1329,27 @@ func ruleCallbackPairing(c *Ctx, rule string) {
 				n++
 				c.Anchor(rule, k.name)
 				if !w.partOf(fn, home) {
-					c.Bad(rule, fname(fn), k.name, w.instrPos(in), k.name+" is emitted outside "+k.fn+", the function that performs the change it reports")
-					return
+					// a helper shared by several installers/removers may both change the table
+					// and report it: accepted when the change itself is made in that helper's own
+					// body (the checks below then apply there); emission in a function that does
+					// not touch the table is refused
+					touches := false
+					w.eachInstrDeep(fn, func(i2 ssa.Instruction) {
+						if tableWrite(w, i2, tbl) {
+							touches = true
+						}
+						if call, ok := i2.(*ssa.Call); ok {
+							if b, isB := call.Call.Value.(*ssa.Builtin); isB && b.Name() == "delete" {
+								if _, f2, isL := fieldLoad(call.Call.Args[0]); isL && f2 == tbl {
+									touches = true
+								}
+							}
+						}
+					})
+					if !touches {
+						c.Bad(rule, fname(fn), k.name, w.instrPos(in), k.name+" is emitted outside "+k.fn+", the function that performs the change it reports")
+						return
+					}
 				}
 				if k.created {
 					// dominated by the insert into the table
